@@ -15,6 +15,7 @@ import (
 	"crypto/x509"
 	"encoding/hex"
 	"fmt"
+	"strings"
 	"sync"
 
 	fdo "github.com/fido-device-onboard/go-fdo"
@@ -47,7 +48,7 @@ type sample struct {
 func build(k keys.Kind, enc protocol.KeyEncoding, hops int, mfgRole, devRole string) (*sample, error) {
 	ctx := context.Background()
 	w := lab.NewWorld(k, enc)
-	w.Mfg = lab.NewMemServer("mfg", mfgRole)
+	w.Mfg = lab.NewMemServer("mfg", mfgRole).UseKind(k)
 	w.WMfg = lab.NewWire(w.Mfg)
 	w.Dev = lab.NewDevice(k, enc, devRole)
 	if err := w.Dev.DI(ctx, w.WMfg.Transport()); err != nil {
@@ -357,7 +358,7 @@ func (s *sample) extension() {
 				}
 			})
 			isOwner := rv.KeysEqual(signer.Public(), s.owner.Public())
-			sameTypeSize := n.alg == s.kind.Alg
+			sameTypeSize := strings.HasPrefix(s.kind.Alg, n.alg) // boundary rings (ec256x0, ...) are keys of the plain type
 			want := isOwner && sameTypeSize
 			repl := map[string]any{"voucher": s.id(), "signer": sname, "next": n.name}
 			switch {
@@ -454,11 +455,18 @@ func main() {
 		kind string
 		enc  protocol.KeyEncoding
 	}
-	cfgs := []cfg{{"ec256", protocol.X509KeyEnc}, {"ec384", protocol.CoseKeyEnc}, {"rsapss2048", protocol.X5ChainKeyEnc}}
+	// the -x0 / -y0 rings hold keys whose x / y coordinate begins with a zero octet (about 1 key in 128 of each ring
+	// of honest keys does): every encoding of a key must carry them through the chain
+	cfgs := []cfg{{"ec256", protocol.X509KeyEnc}, {"ec384", protocol.CoseKeyEnc}, {"rsapss2048", protocol.X5ChainKeyEnc}, {"ec256-x0", protocol.CoseKeyEnc}, {"ec384-y0", protocol.CoseKeyEnc}}
 	lens := []int{0, 2}
 	if !r.Quick() {
 		cfgs = nil
 		for _, k := range keys.Kinds {
+			for _, e := range k.Encodings() {
+				cfgs = append(cfgs, cfg{k.Name, e})
+			}
+		}
+		for _, k := range keys.BoundaryKinds {
 			for _, e := range k.Encodings() {
 				cfgs = append(cfgs, cfg{k.Name, e})
 			}
